@@ -116,6 +116,7 @@ class ConsumerRun:
         self.proc_d = None
         self.overlap = False
         self.ncommit = 0
+        self.arm_stop = False
         kw = {}
         if cfg["group"]:
             kw = dict(consumer_group="g", auto_commit_every_n=cfg["block_n"], auto_commit_every_ms=(1000 if cfg["auto_t"] else 0))
@@ -134,6 +135,9 @@ class ConsumerRun:
             self.overlap = True
         self.act(["proc", [m.offset for m in msgs]])
         if self.cfg["sync"]:
+            if self.arm_stop:
+                self.arm_stop = False
+                consumer.stop()       # stop() from inside the processor
             return None
         self.proc_d = defer.Deferred()
         return self.proc_d
@@ -215,6 +219,8 @@ class ConsumerRun:
             return self._timer(("cretry",)) is not None
         if a == "Tick":
             return self._timer(("tick",)) is not None
+        if a == "ArmStop":
+            return self.cfg["sync"] and not self.arm_stop and self.running and not self.shutdown_pending
         return False
 
     def _fire(self, dc):
@@ -270,6 +276,8 @@ class ConsumerRun:
                 self._fire(self._timer(("cretry",)))
             elif a == "Tick":
                 self._fire(self._timer(("tick",)))
+            elif a == "ArmStop":
+                self.arm_stop = True
             elif a == "CommitDone":
                 d = self._pend("commit")
                 if k == "ok":
@@ -339,6 +347,7 @@ def random_run(cfg, seed, length):
         add(5, "CommitDone", 0, None, rng.choice(["ok", "ok", "ok", "retriable", "fenced"]))
         add(3, "CommitRetry")
         add(1.5, "Tick")
+        add(0.5, "ArmStop")
         if not cands:
             break
         tot = sum(w for w, _ in cands)
